@@ -159,6 +159,59 @@ theorem leCostPath_trans (a b c : Rat × Codes) (h1 : leCostPath a b = true) (h2
   · exact Or.inl (e1 ▸ h2)
   · exact Or.inr ⟨e1.trans e2, List.le_trans l1 l2⟩
 
+/-! ### Costs are non-negative -/
+
+theorem sum_nonneg (l : List Rat) (h : ∀ x ∈ l, 0 ≤ x) : 0 ≤ l.sum := by
+  induction l with
+  | nil => simp
+  | cons a t ih =>
+    have ha := h a List.mem_cons_self
+    have ht := ih fun x hx => h x (List.mem_cons_of_mem _ hx)
+    simp only [List.sum_cons]
+    grind
+
+theorem rangeCost_zeno_nonneg (k d : Nat) : 0 ≤ rangeCost .zeno k d := by
+  rw [zeno_is_sum]
+  apply sum_nonneg
+  intro x hx
+  obtain ⟨j, _, rfl⟩ := List.mem_map.mp hx
+  have hp : (0 : Rat) < 2 ^ (j + 1) := Rat.pow_pos (by decide)
+  rw [Rat.div_def, Rat.one_mul]
+  exact Rat.le_of_lt (Rat.inv_pos.mpr hp)
+
+theorem rangeCost_linear_nonneg (k d : Nat) (h : k ≤ d) : 0 ≤ rangeCost .linear k d := by
+  rw [linear_closed]
+  exact Rat.intCast_nonneg.mpr (by omega)
+
+theorem findStart_le (K : List Codes) (edges : List Codes) (n : Nat) : findStart K edges n ≤ n := by
+  obtain ⟨h0, h1, _⟩ := findStart_spec K edges n
+  rcases Nat.eq_zero_or_pos n with h | h
+  · rw [h0 h]; omega
+  · exact Nat.le_of_lt (h1 h)
+
+theorem rangeCost_nonneg (strat : Strategy) (k d : Nat) (h : k ≤ d) : 0 ≤ rangeCost strat k d := by
+  cases strat
+  · exact rangeCost_zeno_nonneg k d
+  · exact rangeCost_linear_nonneg k d h
+
+/-- `taxon_cost` is never negative. -/
+theorem taxonCost_nonneg (strat : Strategy) (K : List Codes) (t : Codes) : 0 ≤ taxonCost strat K t := by
+  unfold taxonCost
+  split
+  · exact Rat.le_refl
+  · split
+    · exact rangeCost_nonneg strat 0 0 (Nat.le_refl 0)
+    · exact rangeCost_nonneg strat _ _ (findStart_le K _ _)
+
+/-- The total cost of a program is never negative. -/
+theorem programCost_nonneg (strat : Strategy) (K : List Codes) (rec : TaxaSpans) :
+    0 ≤ programCost strat K rec := by
+  rw [programCost_eq_sum]
+  apply sum_nonneg
+  intro x hx
+  obtain ⟨ts, _, rfl⟩ := List.mem_map.mp hx
+  exact taxonCost_nonneg strat K ts.1
+
 /-! ### The memoised assessor refines the pure functions -/
 
 /-- Every cached value is the cost under the *current* knowledge. -/
